@@ -16,6 +16,7 @@ import os
 import sys
 
 sys.path.insert(0, os.path.join(os.path.dirname(os.path.abspath(__file__)), "..", "drivers"))
+import scopetrace  # noqa: E402
 import unitgen  # noqa: E402
 import vlib  # noqa: E402
 
@@ -91,6 +92,19 @@ def main():
                             "reported": [(d["code"], d["primary"]["msg"][:80]) for d in rr.get("analyze_diags", [])],
                             "parse": rr.get("parse")},
                     replay={"text": c["files"][0]["text"], "cmd": "vph analyze"})
+    # implementation -> specification: the symbol table operations of every analysis (guarded hook in symbol_table.rs) are
+    # validated against Scope.tla: declarations only inside a declaration's scope, look-ups see exactly the visible names,
+    # every scope is left again, nothing stays behind for the next declaration
+    vlib.deviation_caught("Scope.tla", "DEV_Scope_DeclareInRoot.cfg", "SiblingsIsolated", cov)
+    sc = vlib.tlc_check("Scope.tla", "MC_Scope.cfg", workers=4, want_replay=False)
+    cov["states"] += sc["states"]
+    cov["transitions"] += sc["transitions"]
+    cov["tlc_runs"].append({"cfg": "MC_Scope.cfg", "states": sc["states"]})
+    for i, table, stage, first in scopetrace.validate("c02", res, cov):
+        rec = recs[i]
+        rep.add("scope-trace-rejected:%s:%s:%s" % (table, stage, first.get("op", first.get("ev"))), labels=labels_of(rec),
+                detail={"edits": rec["edits"], "first_unmatched_record": first, "walk": stage},
+                replay={"text": cases[i]["files"][0]["text"], "cmd": "vph analyze"})
     cov["units"] = len(recs)
     cov["valid_units"] = sum(1 for x in recs if not x["violated"])
     cov["single_fault_units"] = sum(1 for x in recs if len(x["violated"]) == 1)
